@@ -1595,6 +1595,57 @@ def gen_simd_kernels(repo):
         sk = ' ; '.join('%s(%s)' % (c, ' '.join(a.split())) for c, a in calls if not c.endswith('set_epi8'))
         out += '/-- %s: %s: every intrinsic / helper call with its arguments, in textual order -/\n' % (f161a, fn)
         out += 'def u16x1_avx2_%s_skeleton : String := "%s"\n\n' % ('four_rows' if tag == 'four' else 'one_row', sk.replace('"', '\\"'))
+    # single-channel 8-bit images on AVX2: no masks (`_mm256_cvtepu8_epi16`); both kernels and the two horizontal-sum helpers
+    f1a = 'src/convolution/u8x1/avx2.rs'
+    with open(os.path.join(repo, f1a)) as fh:
+        src1a = fh.read()
+    for fn, nm in (('horiz_convolution_one_row', 'one_row'), ('horiz_convolution_four_rows', 'four_rows'),
+                   ('hsum_i32x8_avx2', 'hsum8'), ('hsum_epi32_avx', 'hsum4')):
+        m = re.search(r'unsafe fn %s\(.*?\n\}' % fn, src1a, re.S)
+        if not m:
+            raise TranslationError("%s: %s not found" % (f1a, fn))
+        body = re.sub(r'//[^\n]*', '', m.group(0))
+        calls = re.findall(r'\b(_mm(?:256)?_\w+(?:::<\w+>)?|simd_utils::\w+|chunks_exact|remainder|next|hsum_i32x8_avx2|hsum_epi32_avx|normalizer\.clip|normalizer\.precision)\(([^()]*(?:\([^()]*\)[^()]*)*)\)', body)
+        sk = ' ; '.join('%s(%s)' % (c, ' '.join(a.split())) for c, a in calls)
+        extra = ''
+        if fn == 'hsum_epi32_avx':
+            extra = ' | ' + ' '.join(re.search(r'const I: i32 = [^;]*', body).group(0).split())
+        if fn.startswith('horiz'):
+            extra = ' | ' + ' ; '.join(' '.join(x.split()) for x in re.findall(r'(result_i32(?:x4\[i\])? \+= [^;]*)', body))
+        out += '/-- %s: %s: every intrinsic / helper call with its arguments, in textual order -/\n' % (f1a, fn)
+        out += 'def u8x1_avx2_%s_skeleton : String := "%s%s"\n\n' % (nm, sk.replace('"', '\\"'), extra.replace('"', '\\"'))
+    # two-channel 8-bit images on AVX2, four-row kernel: two rows per 256-bit register; masks by halves, call sequence, set_dst_pixel
+    f2a = 'src/convolution/u8x2/avx2.rs'
+    with open(os.path.join(repo, f2a)) as fh:
+        src2a = fh.read()
+    m = re.search(r'unsafe fn horiz_convolution_four_rows\(.*?\n\}', src2a, re.S)
+    if not m:
+        raise TranslationError("%s: horiz_convolution_four_rows not found" % f2a)
+    body = re.sub(r'//[^\n]*', '', m.group(0))
+    body = re.sub(r'/\*.*?\*/', '', body, flags=re.S)
+    masks = []
+    for a in re.finditer(r'let (sh\d+) = _mm256_set_epi8\(([^;]*?)\);', body, re.S):
+        vals = [int(x) for x in a.group(2).replace('\n', ' ').split(',') if x.strip()]
+        if len(vals) != 32:
+            raise TranslationError("%s: mask %s does not have 32 entries" % (f2a, a.group(1)))
+        masks.append((a.group(1), list(reversed(vals))))
+    if [n for n, _ in masks] != ['sh1', 'sh2']:
+        raise TranslationError("%s: expected the masks sh1, sh2, found %s" % (f2a, [n for n, _ in masks]))
+    for n, v in masks:
+        for half, part in (('lo', v[:16]), ('hi', v[16:])):
+            out += '/-- %s: horiz_convolution_four_rows: %s 128-bit half of the shuffle mask %s, byte 0 first -/\n' % (f2a, 'low' if half == 'lo' else 'high', n)
+            out += 'def u8x2_avx2_four_%s_%s : List Int := [%s]\n\n' % (n, half, ', '.join(str(x) if x >= 0 else '(%d)' % x for x in part))
+    calls = re.findall(r'\b(_mm(?:256)?_\w+(?:::<\w+>)?|simd_utils::\w+|chunks_exact|remainder|first|set_dst_pixel|normalizer\.precision)\(([^()]*(?:\([^()]*\)[^()]*)*)\)', body)
+    sk = ' ; '.join('%s(%s)' % (c, ' '.join(a.split())) for c, a in calls if not c.endswith('set_epi8'))
+    out += '/-- %s: horiz_convolution_four_rows: every intrinsic / helper call with its arguments, in textual order -/\n' % f2a
+    out += 'def u8x2_avx2_four_rows_skeleton : String := "%s"\n\n' % sk.replace('"', '\\"')
+    m = re.search(r'unsafe fn set_dst_pixel\(.*?\n\}', src2a, re.S)
+    if not m:
+        raise TranslationError("%s: set_dst_pixel not found" % f2a)
+    body = re.sub(r'//[^\n]*', '', m.group(0))
+    stm = [' '.join(x.split()) for x in body[body.index('{') + 1:body.rindex('}')].split(';') if x.strip()]
+    out += '/-- %s: set_dst_pixel: its statements -/\n' % f2a
+    out += 'def u8x2_avx2_set_dst_pixel : String := "%s"\n\n' % ' ; '.join(stm).replace('"', '\\"')
     # the vertical pass for 8-bit components (all four u8 pixel types)
     f = 'src/convolution/vertical_u8/sse4.rs'
     with open(os.path.join(repo, f)) as fh:
